@@ -5,4 +5,5 @@ macro_rules! panic {
 #[allow(unused_macros)]
 macro_rules! format {
     (r#"{}"#, $a:expr) => { vx_fmt_id(&$a) };
+    ("{}", $a:expr) => { vx_fmt_id(&$a) };
 }
